@@ -9,8 +9,9 @@ use std::fs::File;
 use std::io::Read;
 use std::str::Lines;
 
-/// The maximum depth to which sections can be nested.
-/// The parser is recursive, so without a limit a deeply nested file would overflow the stack.
+/// The maximum depth to which sections and included files can be nested.
+/// The parser is recursive, so without a limit a deeply nested file, or a file which includes itself,
+///   would overflow the stack.
 pub const MAX_DEPTH: usize = 64;
 
 /// Represents a node in the configuration syntax tree.
@@ -249,8 +250,12 @@ fn parse_section(
                         ));
                     }
                 } else if wildcard_match("\"*\"", value) {
-                    let include_result =
-                        include(&value[1..value.len() - 1], filename, lines.current_line());
+                    let include_result = include(
+                        &value[1..value.len() - 1],
+                        filename,
+                        lines.current_line(),
+                        depth,
+                    );
                     if let Ok(included_nodes) = include_result {
                         values.extend(included_nodes);
                     } else {
@@ -280,14 +285,29 @@ fn parse_section(
 
 /// Attempts to include the configuration file at the specified path into the tree,
 ///   returning a `Vec` of `ConfigNode`s. If unsuccessful, returns a descriptive error.
-fn include(path: &str, containing_file: &str, line: u64) -> Result<Vec<ConfigNode>, ConfigError> {
+fn include(
+    path: &str,
+    containing_file: &str,
+    line: u64,
+    depth: usize,
+) -> Result<Vec<ConfigNode>, ConfigError> {
+    // An included file is a level of nesting like a section, so a chain of includes (for example a file which
+    //   includes itself) ends with an error at the `include` directive which goes too deep
+    if depth + 1 >= MAX_DEPTH {
+        return Err(ConfigError::new(
+            "Included files are nested too deeply",
+            containing_file,
+            line,
+        ));
+    }
+
     if let Ok(mut file) = File::open(path) {
         let mut buf = String::new();
         if file.read_to_string(&mut buf).is_ok() {
             buf.push_str("\n}");
 
             let mut iter = TracebackIterator::from(buf.lines());
-            let parsed_node = parse_section("temp_included_section", &mut iter, path, 0)?;
+            let parsed_node = parse_section("temp_included_section", &mut iter, path, depth + 1)?;
 
             match parsed_node {
                 ConfigNode::Section(_, children) => Ok(children),
